@@ -215,7 +215,7 @@ def _single_sweep(acc, shard, nshards, seed, tier):
 
 def _query_sweep(acc, shard, nshards, seed, tier):
     """all permutations of <=4 kept items x each tracking item at each position x separators"""
-    pools = [[["b", "2"], ["a", "1"], ["c", None], ["q", "a b"]], [["id", "42"], ["B", "x"], ["é", "ü"]], [["a", "1"], ["a", "0"], ["x", ""]],
+    pools = [[["t", None], ["t", ""], ["b", "2"]], [["k", ""], ["k", None], ["k", "1"], ["K", None]], [["b", "2"], ["a", "1"], ["c", None], ["q", "a b"]], [["id", "42"], ["B", "x"], ["é", "ü"]], [["a", "1"], ["a", "0"], ["x", ""]],
              [["k", "a%20b"], ["z", "%41"]], [["page", "2"]], []]
     hosts = ["http://example.com/p", "https://www.facebook.com/zuck", "https://www.youtube.com/watch"]
     tracking_all = T.TRACKING_POOL
